@@ -18,7 +18,8 @@ from vf.semi import model
 ID = "C02"
 RULE = (
     "case = (grammar <=4 nonterminals, <=8 rules, bodies 0..4, regime, rule rotation, renaming, "
-    "agenda tie-break salt); every string over V up to the length bound is evaluated by each "
+    "agenda tie-break salt); every string over V up to the length bound, plus in a third of the cases up to three "
+    "strings of length <= 6 obtained by random derivations, is evaluated by each "
     "parser and compared with the reference inside weight; non-trivial = some non-empty string "
     "has non-zero reference weight and some string has zero weight (or the grammar is nullable); "
     "distinct = SHA-1 of the case JSON"
@@ -46,6 +47,7 @@ def strategy(draw, tier="quick"):
         "rename": draw(st.sampled_from(["id", "id", "tuple", "int", "str"])),
         "salt": draw(st.one_of(st.none(), st.integers(0, 2**32 - 1))),
         "n": 3 if tier == "quick" else draw(st.sampled_from([3, 3, 4])),
+        "extra": draw(gen.derived_strings(g)) if draw(st.integers(0, 2)) == 0 else [],
     }
 
 
@@ -81,6 +83,13 @@ def check(case, ctx):
 
     cfg = ctx.call("build", lib_cfg, M, g, case.get("perm"), case.get("rename"))
     strings = gen.all_strings(g["V"], case.get("n", 3))
+    from vf.cfgref import sym
+
+    longer = [tuple(sym(y) for y in s) for s in case.get("extra", [])]
+    longer = [s for s in dict.fromkeys(longer) if s not in set(strings)]
+    if longer:
+        ctx.cls("derived_strings_len>=%d" % min(6, max(len(s) for s in longer)))
+    strings = strings + longer
     want = {xs: ref(xs) for xs in strings}
     nz = [xs for xs in strings if not M.is_zero(want[xs])]
     ctx.nontrivial = (any(len(xs) > 0 for xs in nz) and len(nz) < len(strings)) or bool(
